@@ -17,7 +17,7 @@ import signal
 import yaml
 from hypothesis import given, seed, strategies as st
 
-from .. import core, declgen, shroud_run
+from .. import core, declgen, shroud_run, smallgen
 
 LEVEL = "exploration"
 
@@ -315,7 +315,7 @@ def expectation(c):
 ATTR_NAMES = ["allocatable", "assumedtype", "capsule", "cdesc", "charlen", "external", "deref", "dimension",
               "hidden", "implied", "intent", "len", "len_trim", "name", "owner", "pass", "rank", "size",
               "value", "free_pattern", "pure", "readonly", "bogus"]
-ATTR_VALUE_FORMS = ["", "(3)", "(in)", "(n)", "=3", "=x", "()", "(a,b)", "(size(n))", "(size(n) 2)", "(1+)",
+ATTR_VALUE_FORMS = ["", "(3)", "(in)", "(n)", "=3", "=x", "()", "(a,b)", "(size(n))", "(size(3))", "(size(n) 2)", "(1+)",
                     "(\"s\")", "=1.5", "(..)", "(raw)", "(caller)"]
 ATTR_SITES = {
     "func-result-ptr": "int *func(int n) {A}",
@@ -330,6 +330,9 @@ ATTR_SITES = {
     "var-member": "class Class1|int m_v {A};",
     "struct-member": "struct S1 {{ int *m_v {A}; }};",
     # an argument list of a fortran_generic variant (fortran.rst): validated by the same code as a declaration's
+    # a parameter of a function-pointer argument (declarations.rst "Function Pointers")
+    "fptr-param": "void func(int (*fn)(int a {A}))",
+    "fptr-param-ptr": "void func(void (*fn)(double *a {A}, int n))",
     "generic-arg-ptr": "GENERIC|void func(double *arg, int n)|(float *arg {A}, int n)",
     "generic-arg-scalar": "GENERIC|void func(double arg)|(float arg {A})",
 }
@@ -445,6 +448,10 @@ def yaml_faults():
     f.append(("typemap-base-unknown", lib(typemap=[{"type": "Foo", "fields": {"base": "other"}}], declarations=[{"decl": "void f()"}])))
     f.append(("template-instantiation-unparsable", lib(declarations=[{"decl": "template<typename T> void f(T a)", "cxx_template": [{"instantiation": "<int"}]}])))
     f.append(("template-instantiation-unknown-type", lib(declarations=[{"decl": "template<typename T> void f(T a)", "cxx_template": [{"instantiation": "<nosuchtype>"}]}])))
+    # text after a complete argument list / template argument list is not silently dropped
+    f.append(("fortran_generic-trailing-text", lib(declarations=[{"decl": "void f(double a)", "fortran_generic": [{"decl": "(float a) junk"}, {"decl": "(double a)"}]}])))
+    f.append(("fortran_generic-unbalanced", lib(declarations=[{"decl": "void f(double a)", "fortran_generic": [{"decl": "(float a"}, {"decl": "(double a)"}]}])))
+    f.append(("template-instantiation-trailing-text", lib(declarations=[{"decl": "template<typename T> void f(T a)", "cxx_template": [{"instantiation": "<int> junk"}]}])))
     f.append(("splicer-file-missing", lib(splicer={"c": ["nosuchfile.c"]}, declarations=[{"decl": "void f()"}])))
     f.append(("unknown-type-in-decl", lib(declarations=[{"decl": "void f(nosuchtype a)"}])))
     f.append(("destructor-outside-class", lib(declarations=[{"decl": "~Foo()"}])))
@@ -469,6 +476,73 @@ def _yaml_job(job):
         cl, key, detail = classify(r.exc_type, r.exc_msg, r.exc_origin, mro, r.exc_tb)
     return dict(label=label, yaml=ytext, cls=cl, key=key, detail=(detail or "")[-1200:], nsrc=len(srcs),
                 msg=(r.exc_msg or "")[:300])
+
+
+# ---------------------------------------------------------------------------
+# E whole pipeline on declarations the parser accepts
+
+PRELUDE_DECLS = [
+    {"decl": "class Class1", "declarations": []},
+    {"decl": "namespace ns1", "declarations": [{"decl": "class Inner"}, {"decl": "namespace ns2", "declarations": [{"decl": "class Deep"}]}]},
+    {"decl": "typedef int TypeID"}, {"decl": "enum Color { RED, BLUE }"}, {"decl": "struct Str1 { int i; }"},
+]
+
+
+EXCLUDED = []
+PIPE_PROBES = [
+    ("function-pointer-variable", "library", "char **const (*a)()"),
+    ("vector-of-string-result", "library", "std::vector<std::string> func(void)"),
+    ("python-pointer-member-variable", "class", "unsigned short * value"),
+]
+
+
+def _pipe_job(job):
+    idx, context, text, python = job
+    import copy
+    decls = copy.deepcopy(PRELUDE_DECLS)
+    if context == "class":
+        decls[0]["declarations"].append({"decl": text})
+    else:
+        decls.append({"decl": text})
+    if not decls[0]["declarations"]:
+        del decls[0]["declarations"]
+    doc = {"library": "pipe", "cxx_header": "pipe.hpp", "options": {"wrap_python": python, "wrap_lua": False},
+           "declarations": decls}
+    ytext = yaml.safe_dump(doc, sort_keys=False, width=1000)
+    r = shroud_run.run_yaml(ytext, [], name="pipe")
+    if r.status == "ok":
+        cl, key, detail = "ok", None, ""
+    elif r.status == "timeout":
+        cl, key, detail = "hang", "hang:pipeline", ""
+    else:
+        mro = (r.extra or {}).get("mro") or [r.exc_type]
+        cl, key, detail = classify(r.exc_type, r.exc_msg, r.exc_origin, mro, r.exc_tb)
+    return dict(idx=idx, context=context, text=text, python=python, yaml=ytext, cls=cl, key=key, detail=(detail or "")[-1200:],
+                msg=(r.exc_msg or "")[:200])
+
+
+def pipe_jobs(n, seed_value):
+    """Declarations of the documented grammar without attributes (the C++ text alone)."""
+    ds = smallgen.sample(declgen.declaration(), seed_value + 9, n)
+    jobs = []
+    seen = set()
+    for d in ds:
+        text = d["cxx"]
+        m = d["model"]
+        # shapes of the two recorded findings (probed separately below) are left out of the search
+        if m.get("kind") == "fptr" or "std::vector<std::string>" in text.replace(" ", ""):
+            EXCLUDED.append(text)
+            continue
+        if (d["context"], text) in seen:
+            continue
+        seen.add((d["context"], text))
+        python = len(jobs) % 3 == 0
+        if python and m.get("kind") == "var" and m.get("ptrs"):
+            # a pointer member variable / global with the Python wrapper: recorded finding (missing helper -> KeyError)
+            EXCLUDED.append(text)
+            python = False
+        jobs.append((len(jobs), d["context"], text, python))
+    return jobs
 
 
 # ---------------------------------------------------------------------------
@@ -538,6 +612,24 @@ def run(ctx):
         elif res["cls"] == "ok":
             ctx.failure("C:fault-accepted:" + res["label"], case, expected="diagnostic", observed="accepted",
                         note="YAML fault %s accepted silently" % res["label"])
+    # E
+    found = {}
+    for res in core.pool_map(_pipe_job, pipe_jobs(400 if quick else 6000, ctx.seed), chunksize=4):
+        ctx.case(label=["E:pipeline", "E:outcome:" + res["cls"]], nontrivial=("E", res["context"], res["text"]))
+        if res["key"] and (res["key"] not in found or len(res["text"]) < len(found[res["key"]]["text"])):
+            found[res["key"]] = res
+    ctx.exclude_known("probe:function-pointer-variable", len(EXCLUDED))
+    for name, context, text in PIPE_PROBES:
+        res = _pipe_job((0, context, text, name.startswith("python")))
+        ctx.case(label="probe")
+        if res["key"]:
+            ctx.failure("probe:" + name, dict(part="E", probe=name, context=context, text=text, python=name.startswith("python")),
+                        expected="wrappers written, or a diagnostic", observed=res["detail"],
+                        note="%r -> %s" % (text, res["key"]))
+    for key, res in sorted(found.items()):
+        ctx.failure("E:" + key, dict(part="E", context=res["context"], text=res["text"], python=res["python"]),
+                    expected="wrappers written, or a diagnostic", observed=res["detail"],
+                    note="declaration accepted by the parser: %r (%s context) -> %s" % (res["text"], res["context"], key))
     # D
     for res in core.pool_map(_cli_job, CLI_CASES):
         ctx.case(label="D:cli", nontrivial=("D", res["label"]) if res["bad"] else None)
@@ -567,6 +659,10 @@ def replay(ctx, rec):
         res = _attr_job((c["kind"], c["label"], c["text"], c["wrappers"], c["must"]))
         if res["key"] or (c["must"] == "reject" and res["cls"] == "ok"):
             ctx.failure(rec["key"], c, observed=res["detail"], note=str(res["key"]))
+    elif part == "E":
+        res = _pipe_job((0, c["context"], c["text"], c["python"]))
+        if res["key"]:
+            ctx.failure(("probe:" + c["probe"]) if c.get("probe") else "E:" + res["key"], c, observed=res["detail"], note=str(res["key"]))
     elif part == "C":
         res = _yaml_job((c["label"], yaml.safe_load(c["yaml"])))
         if res["key"] or res["cls"] == "ok":
